@@ -647,7 +647,9 @@ def verify_function(contract, registry, quick=True, cli=True, shard=None):
     except RecursionError as e:
         res.status, res.why = "unsupported", "recursion limit in encoder"
     except Exception as e:  # noqa: BLE001
-        res.status, res.why = "crash", f"{type(e).__name__}: {e}\n{traceback.format_exc(limit=8)}"
+        # the encoder tripped over the code: the function is outside the subset it handles gracefully
+        # (the bounded monitor of the same contract is the fall-back, as for any unsupported construct)
+        res.status, res.why = "unsupported", f"encoder error {type(e).__name__}: {e} [{traceback.format_exc(limit=3).splitlines()[-2].strip() if traceback.format_exc(limit=3).count(chr(10)) > 2 else ''}]"
     res.dropped = sorted(set(eng.dropped))
     res.wall = time.time() - t0
     return res
@@ -669,13 +671,17 @@ def _run(eng, contract, fn, res):
         if d is not None:
             defaults[arg.arg] = d
     if a.vararg or a.kwarg:
-        if not contract.params.get("*ok"):
+        typed_kw = a.kwarg is not None and a.kwarg.arg in contract.params and a.vararg is None
+        if not contract.params.get("*ok") and not typed_kw:
             raise Unsupported("*args/**kwargs parameter")
         # opaque pass-through values (only forwarded to externals)
         if a.vararg:
             st.vars[a.vararg.arg] = PyConst("<varargs>")
         if a.kwarg:
-            st.vars[a.kwarg.arg] = PyConst("<kwargs>")
+            if a.kwarg.arg in contract.params:
+                st.vars[a.kwarg.arg] = make_value(eng, st, contract.params[a.kwarg.arg], a.kwarg.arg)
+            else:
+                st.vars[a.kwarg.arg] = PyConst("<kwargs>")
     for arg in allargs:
         n = arg.arg
         if n == "self" and contract.self_type is not None:
